@@ -192,6 +192,8 @@ fn helper_defs() -> Vec<Def> {
         skipped: false,
         config: false,
         compactable: false,
+        bitstore: false,
+        bitorder: false,
     };
     let f = |n: &str, t: Ty| FieldDef {
         name: Some(n.into()),
@@ -225,6 +227,8 @@ fn member_def(m: &Member, is_enum: bool, named: bool) -> Def {
             skipped: (mask >> i) & 1 == 1,
             config: false,
             compactable: false,
+            bitstore: false,
+            bitorder: false,
         })
         .collect();
     let fs: Vec<FieldDef> = m
@@ -334,6 +338,7 @@ fn family_program(level: u32, idx: u64) -> Option<(Program, String)> {
         config_inner: None,
     });
     let prog = Program {
+        name_style: 0,
         defs,
         roots: vec![Ty::Def(use_idx, vec![])],
     };
@@ -414,6 +419,7 @@ pub fn probe_rename_collision() -> Result<(), Failure> {
         docs: vec![],
     };
     let prog = Program {
+        name_style: 0,
         defs: vec![
             unit("Foo", vec![], Fields::Named(vec![fld(Ty::Prim(Prim::U8))])),
             unit("Foo", vec![], Fields::Named(vec![fld(Ty::Prim(Prim::U16))])),
@@ -441,6 +447,8 @@ fn probe_family(which: &str) -> Result<(), Failure> {
         skipped: false,
         config: false,
         compactable: false,
+        bitstore: false,
+        bitorder: false,
     };
     let foo = |params: Vec<ParamDecl>, fields: Vec<FieldDef>| Def {
         path: vec!["m".into(), "Foo".into()],
@@ -471,6 +479,24 @@ fn probe_family(which: &str) -> Result<(), Failure> {
             foo(vec![p("T"), p("U")], vec![fld("a", p1())]),
             vec![p0(), w(p0())],
         ),
+        "types_equal:variant-index" => {
+            let en = |first_index: u8| Def {
+                path: vec!["m".into(), "Foo".into()],
+                params: vec![],
+                docs: vec![],
+                body: Body::Enum(vec![
+                    VariantDef {
+                        name: "A".into(),
+                        index: first_index,
+                        fields: Fields::Unnamed(vec![FieldDef { name: None, ty: p0(), compact_attr: false, docs: vec![] }]),
+                        docs: vec![],
+                    },
+                    VariantDef { name: "B".into(), index: 1, fields: Fields::Unit, docs: vec![] },
+                ]),
+                config_inner: None,
+            };
+            (en(0), vec![], en(2), vec![])
+        }
         _ => (
             // types_equal:same-id-different-generic-view
             foo(vec![p("T")], vec![fld("a", Ty::Tuple(vec![t0.clone(), p0()]))]),
@@ -493,6 +519,7 @@ fn probe_family(which: &str) -> Result<(), Failure> {
             config_inner: None,
         });
         let prog = Program {
+        name_style: 0,
             defs,
             roots: vec![Ty::Def(4, vec![])],
         };
@@ -680,6 +707,11 @@ impl Property for C03 {
             signature: "types_equal:same-id-different-generic-view",
             what: "Foo<T>{a:(T,u8)} with T=u16 vs Foo<T>{a:(u16,u8)} with T=W<u8>",
             run: Box::new(|| probe_family("types_equal:same-id-different-generic-view")),
+        },
+        Probe {
+            signature: "types_equal:variant-index",
+            what: "enum Foo{#[codec(index=0)] A(u8), #[codec(index=1)] B} vs enum Foo{#[codec(index=2)] A(u8), #[codec(index=1)] B}",
+            run: Box::new(|| probe_family("types_equal:variant-index")),
         }]
     }
     fn init(&self, _tier: Tier, seed: u64) {
